@@ -11,8 +11,11 @@ ASSUMPTIONS = [
     "only sends COM in training/SKP sets) -- stated as cyc_env",
     "words are 32 data bits + 4 control flags; descramble_scramble requires data < 2^32",
     "module wrappers (Scrambler/Descrambler) are tied to the model by simulator correspondence; the LFSR equations by affine reflection (all 2^16 states)",
+    "'not while held for SKP insertion' also depends on how USB3PhysicalLayer wires scrambler.hold to the SKP inserter: the transmit path of the real "
+    "layer (C33's target phytx_L354 and its specification monitor c33_mon: transmitted word = SKP | scrambled previous link word with the keystream "
+    "frozen over inserted SKPs) is checked here as well over simulator traces; the kernel-checked lock-step for that path is C33's",
 ]
-TIE_IMPORTS = ("From LunaLib Require Import Affine.\nFrom LunaModel Require Import Crc Scrambler Scrambler_proofs.\n"
+TIE_IMPORTS = ("From LunaLib Require Import Affine.\nFrom LunaModel Require Import Crc Scrambler Scrambler_proofs TxCtc.\n"
                "Require Import Run.Gen_lfsr.\n")
 
 
@@ -38,10 +41,15 @@ def targets(tier):
     ts = [Target("scrambler_ffff", _scr("Scrambler", 0xffff)), Target("descrambler", _scr("Descrambler", None)),
           Target("scrambler_default", _scr("Scrambler", None))]
     ts[0].init = 0xffff; ts[1].init = 0xffff; ts[2].init = 0x7dbd
+    from props import C33 as _c33                    # the layer's transmit path: scrambler + SKP inserter as wired in layer.py
+    ts.append(_c33.mk_phytx(354))
     return ts
 
 
 def traces(target, rng, tier):
+    if getattr(target, "params", {}).get("kind") == "phytx":
+        from props import C33 as _c33
+        return _c33.traces(target, rng, tier)
     n = 25 if tier == "quick" else 200
     out = []
     for _ in range(n):
@@ -64,6 +72,13 @@ def traces(target, rng, tier):
 def obligations(targets, tier):
     obs = []
     for t in targets:
+        if getattr(t, "params", {}).get("kind") == "phytx":
+            from props import C33 as _c33
+            obs.append(tie.cmon(f"layer_{t.name}", t, mon=f"(c33_mon {t.params['L']} {_c33.WS} 65535)", m0="65535",
+                                describe="transmit path of the real USB3PhysicalLayer (scrambler.hold as wired to the SKP inserter): every "
+                                         "transmitted word is SKP or the scrambling of the previous link word with the keystream frozen over "
+                                         "inserted SKPs (C33's specification monitor) over simulator traces"))
+            continue
         obs.append(tie.cmon(f"spec_{t.name}", t, mon=f"(scr_mon {t.init})", m0=f"{t.init}",
                             describe=f"{t.name}: word-level scrambling specification evaluated over simulator traces"))
         obs.append(tie.corr(f"corr_{t.name}", t, mstep=f"scr_step (lfsr_init {t.init})", m0=f"lfsr_init {t.init}",
